@@ -20,6 +20,9 @@ var EquivSpellings = map[string][]string{
 		"http://a.test/%70/r%7E1%2fx?q=1&z=%c3%a9",
 		"http://a.test/p/r~1%2Fx?q=1&z=%C3%A9#frag",
 		"http://a.test/p/r%7e%31%2Fx?q=%31&z=%C3%A9",
+		"http://a.test/p/%2E/r~1%2Fx?q=1&z=%C3%A9",
+		"http://a.test/p/y/%2e%2E/r~1%2Fx?q=1&z=%C3%A9",
+		"http://a.test/p/y/.%2e/r~1%2Fx?q=1&z=%C3%A9",
 	},
 	"r2": {
 		"http://a.test/",
@@ -27,6 +30,8 @@ var EquivSpellings = map[string][]string{
 		"http://A.TEST:80/",
 		"http://a.test/.",
 		"http://a.test/x/..",
+		"http://a.test/%2e",
+		"http://a.test/x/%2E%2e",
 		"http://a.test/#f",
 	},
 	"r3": {
@@ -35,6 +40,7 @@ var EquivSpellings = map[string][]string{
 		"https://b.test:8443/a/./b;p=1/c",
 		"https://b.test:8443/a/b;p=1/d/../c",
 		"https://b.test:8443/%61/b;p=1/c",
+		"https://b.test:8443/a/%2e/b;p=1/d/%2E%2E/c",
 	},
 	"r4": {
 		"https://b.test/long/" + strings.Repeat("seg/", 40) + "end",
@@ -156,8 +162,41 @@ func MaybeExt(t *rapid.T, label string, cc []string, pct int) []string {
 	return cc
 }
 
+// MaybeDup repeats directives now and then. For a repeated directive the first occurrence is
+// the one in force (RFC 9111 §4.2.1: first occurrence, or the response is stale), so later
+// occurrences with longer lifetimes / weaker demands must change nothing; an unqualified
+// no-cache stays unqualified next to a qualified one, in either order.
+func MaybeDup(t *rapid.T, label string, cc []string) []string {
+	if !Pct(t, label+"-dup", 6) {
+		return cc
+	}
+	out := append([]string(nil), cc...)
+	for _, d := range cc {
+		name, _, _ := strings.Cut(d, "=")
+		switch name {
+		case "max-age", "stale-while-revalidate", "stale-if-error":
+			if Pct(t, label+"-dup-"+name, 60) {
+				out = append(out, name+"="+Pick(t, label+"-dupv-"+name, "86400", "100000", "31536000"))
+			}
+		case "no-cache":
+			if d == "no-cache" {
+				if Pct(t, label+"-dupnc", 50) {
+					out = append(out, `no-cache="X-Secret"`)
+				} else {
+					out = append([]string{`no-cache="X-Other"`}, out...)
+				}
+			}
+		}
+	}
+	if Pct(t, label+"-dupline", 30) && len(out) > len(cc) {
+		// (callers join with ", "; a separate field line is the same list)
+		return out
+	}
+	return out
+}
+
 func storedDirectives(t *rapid.T, h *Hist, label string) (cc []string, life int64) {
-	defer func() { cc = MaybeExt(t, label+"-sd", cc, 7) }()
+	defer func() { cc = MaybeExt(t, label+"-sd", MaybeDup(t, label+"-sd", cc), 7) }()
 	life = Pick(t, label+"-life", int64(0), 1, 10, 60, 3600)
 	h.Note(life)
 	if Pct(t, label+"-hasma", 90) {
@@ -172,6 +211,10 @@ func storedDirectives(t *rapid.T, h *Hist, label string) (cc []string, life int6
 		cc = append(cc, `no-cache="X-Secret"`)
 	case 3:
 		cc = append(cc, `no-cache="X-Secret, x-other"`)
+	}
+	if len(cc) > 0 && cc[len(cc)-1] == "no-cache" && Pct(t, label+"-ncempty", 15) {
+		// every spelling of a no-cache with an empty field list is a plain no-cache
+		cc[len(cc)-1] = Pick(t, label+"-ncemptyv", `no-cache=","`, `no-cache=" , "`, `no-cache=" "`, `no-cache=""`)
 	}
 	if Pct(t, label+"-mr", 30) {
 		cc = append(cc, "must-revalidate")
@@ -361,6 +404,16 @@ func C02(t *rapid.T) *world.Scenario { return c02like(t, "C02", false) }
 // failing store.
 func C18(t *rapid.T) *world.Scenario {
 	sc := c02like(t, "C18", true)
+	if last := sc.Steps[len(sc.Steps)-1]; last.Op == "req" {
+		switch Weighted(t, "oicform", 84, 6, 5, 5) {
+		case 1:
+			last.Req.Method = Pick(t, "oicmethod", "HEAD", "HEAD", "POST", "OPTIONS", "FOO")
+		case 2:
+			last.Req.Header = append(last.Req.Header, H("Range", "bytes=0-9"))
+		case 3:
+			last.Req.EmptyMethod = true
+		}
+	}
 	if last := sc.Steps[len(sc.Steps)-1]; last.Op == "req" && Pct(t, "reqbody", 8) {
 		last.Req.BodyLen = Pick(t, "reqbodylen", 1, 5, 5000) // a GET may carry content; it is still a GET
 	}
